@@ -14,6 +14,10 @@ func getTypeFromSchema(schema *spec.Schema) (typeName string, isArray bool) {
 	}
 	typeName = schema.Type[0]
 	if typeName == ArrayType {
+		if schema.Items == nil || schema.Items.Schema == nil {
+			// tuple-typed or item-less array: no single item type to name
+			return "", true
+		}
 		typeName, _ = getSchemaType(&schema.Items.Schema.SchemaProps)
 		return typeName, true
 	}
@@ -47,6 +51,10 @@ func getTypeFromSchemaProps(schema *spec.SchemaProps) (typeName string, isArray 
 			typeName = fmt.Sprintf("%s.%s", typeName, format)
 		}
 		if typeName == ArrayType {
+			if schema.Items == nil || schema.Items.Schema == nil {
+				// tuple-typed or item-less array: no single item type to name
+				return "", true
+			}
 			typeName, _ = getSchemaType(&schema.Items.Schema.SchemaProps)
 			return typeName, true
 		}
